@@ -425,3 +425,105 @@ def memory_layout(rng, A, how=None):
         B.flags.writeable = False
         return B, how
     return np.ascontiguousarray(A), 'c'
+
+
+def site_field_pattern(rng, L):
+    """Site-dependent field strengths: staggered (A-B-A-B), single impurity, period 3, blocks, fully random."""
+    kind = str(rng.choice(['staggered', 'impurity', 'period3', 'blocks', 'random']))
+    if kind == 'staggered':
+        a, b = rng.normal(size=2)
+        h = [a if i % 2 == 0 else b for i in range(L)]
+    elif kind == 'impurity':
+        h = [0.0] * L
+        h[int(rng.integers(0, L))] = float(rng.normal()) + 0.5
+    elif kind == 'period3':
+        c = rng.normal(size=3)
+        h = [c[i % 3] for i in range(L)]
+    elif kind == 'blocks':
+        a, b = rng.normal(size=2)
+        k = int(rng.integers(1, L))
+        h = [a if i < k else b for i in range(L)]
+    else:
+        h = list(rng.normal(size=L))
+    return kind, [float(x) for x in h]
+
+
+def charged_operator(rng, qd, c, cplx=True):
+    """Random local operator X with X[s, t] != 0 only where qd[s] - qd[t] == c (None if no such entry exists)."""
+    qd = np.asarray(qd)
+    mask = np.subtract.outer(qd, qd) == c
+    if not mask.any():
+        return None
+    d = len(qd)
+    X = rng.normal(size=(d, d)) + (1j * rng.normal(size=(d, d)) if cplx else 0)
+    return np.where(mask, X, 0)
+
+
+def nn_pattern_hamiltonian(rng, qd, L, pattern=None, cplx=True, npairs=None):
+    """
+    Hand-built automaton-form MPO (independent of the repository's graph compiler) of a Hermitian nearest-neighbour Hamiltonian with
+    SITE-DEPENDENT parameters:  H = sum_i sum_k [ J_i^k X^k_i (X^k)^dagger_{i+1} + h.c. ] + sum_i h_i N_i,  N charge neutral.
+    The parameter set of site i follows `pattern` (uniform / staggered A-B-A-B / impurity / period3 / blocks / random): sites with the same parameter
+    set carry bit-identical bulk tensors. Returns (MPO, pattern name, dense matrix built by Kronecker products).
+    """
+    qd = np.asarray(qd)
+    d = len(qd)
+    diffs = np.unique(np.subtract.outer(qd, qd))
+    K = int(rng.integers(1, 3)) if npairs is None else npairs
+    Xs = []
+    for _ in range(K):
+        c = int(rng.choice(diffs))
+        X = charged_operator(rng, qd, c, cplx)
+        Xs.append((c, X))
+    N = np.diag(rng.normal(size=d))
+    if pattern is None:
+        pattern = str(rng.choice(['uniform', 'staggered', 'impurity', 'period3', 'blocks', 'random']))
+    nsets = {'uniform': 1, 'staggered': 2, 'impurity': 2, 'period3': 3, 'blocks': 2, 'random': L}[pattern]
+    sets = [(rng.normal(size=K) + (1j * rng.normal(size=K) if cplx else 0), float(rng.normal())) for _ in range(nsets)]
+    imp = int(rng.integers(0, L))
+    kb = int(rng.integers(1, max(2, L)))
+    which = {'uniform': lambda i: 0, 'staggered': lambda i: i % 2, 'impurity': lambda i: int(i == imp), 'period3': lambda i: i % 3,
+             'blocks': lambda i: int(i >= kb), 'random': lambda i: i}[pattern]
+    # bond states: 0 = final, 1..2K = pending (X^k sent / X^k^dagger sent), 2K+1 = initial
+    D = 2 * K + 2
+    qb = np.zeros(D, dtype=int)
+    for k, (c, X) in enumerate(Xs):
+        qb[1 + 2 * k] = c
+        qb[2 + 2 * k] = -c
+    ident = np.identity(d)
+    dt = complex if cplx else float
+    tensors = []
+    for i in range(L):
+        J, h = sets[which(i)]
+        W = np.zeros((d, d, D, D), dtype=dt)
+        W[:, :, D - 1, D - 1] = ident
+        W[:, :, 0, 0] = ident
+        W[:, :, D - 1, 0] = h * N
+        for k, (c, X) in enumerate(Xs):
+            W[:, :, D - 1, 1 + 2 * k] = J[k] * X
+            W[:, :, 1 + 2 * k, 0] = X.conj().T
+            W[:, :, D - 1, 2 + 2 * k] = np.conj(J[k]) * X.conj().T
+            W[:, :, 2 + 2 * k, 0] = X
+        tensors.append(W)
+    A = [t.copy() for t in tensors]
+    qD = [qb.copy() for _ in range(L + 1)]
+    A[0] = A[0][:, :, D - 1:D, :]
+    qD[0] = np.array([0])
+    A[-1] = A[-1][:, :, :, 0:1]
+    qD[-1] = np.array([0])
+    H = ptn.MPO(qd, qD, fill='postpone')
+    H.A = A
+    # dense reference by Kronecker products
+    dim = d ** L
+    M = np.zeros((dim, dim), dtype=complex)
+
+    def emb(op, i, n=1):
+        return np.kron(np.kron(np.identity(d ** i), op), np.identity(d ** (L - i - n)))
+    for i in range(L):
+        J, h = sets[which(i)]
+        M += h * emb(N, i)
+        if i < L - 1:
+            for k, (c, X) in enumerate(Xs):
+                T = J[k] * np.kron(X, X.conj().T)
+                M += emb(T + T.conj().T, i, 2)
+    return H, pattern, M
